@@ -686,13 +686,13 @@ def run(ctx, rep):
         if ctx.quick:
             pairs = [(a, b) for a, b in pairs if len(a) + len(b) <= 8] + rng.sample([(a, b) for a, b in pairs if len(a) + len(b) > 8], 60)
         else:
-            pairs = [(a, b) for a, b in pairs if len(a) + len(b) <= 10] + rng.sample([(a, b) for a, b in pairs if len(a) + len(b) > 10], 400)
+            pairs = [(a, b) for a, b in pairs if len(a) + len(b) <= 9] + rng.sample([(a, b) for a, b in pairs if len(a) + len(b) > 9], 500)
         for sa, sb in pairs:
             pa, pb = label(sa, 0), label(sb, 8)
             ps = [(pa, list(sa)), (pb, list(sb))]
             la, lb = len(sa), len(sb)
             tight = max(depth(parse(pa)), depth(parse(pb)))
-            for ml in sorted({tight} | ({16} if (not ctx.quick or rng.random() < 0.15) else set())):
+            for ml in sorted({tight} | ({16} if rng.random() < ctx.pick(0.15, 0.3) else set())):
                 ck.enumerate("enum", "standard_crossover", ps, [1.0, 2.0], [1.0, 2.0], ml, 0, 0.0, U_BIG,
                              lambda sc: idx_u(la) if len(sc) == 0 else idx_u(lb) if len(sc) == 1 else coin)
             ncom = len(common_rec([parse(pa), parse(pb)]))
@@ -781,7 +781,7 @@ def run(ctx, rep):
     C.log(f"[C08] model evaluated {tm.s()}s")
     rep.exhaustive = True
     rep.exhaustive_note = (f"all shapes <= {N} nodes (arities 0..3), every node labelled; two-parent crossovers on all pairs with "
-                           f"<= {ctx.pick(8, 10)} nodes in total (+ a sample of the larger pairs) x all index draws; mutations on every shape <= {ctx.pick(6, 7)} nodes "
+                           f"<= {ctx.pick(8, 9)} nodes in total (+ a sample of the larger pairs) x all index draws; mutations on every shape <= {ctx.pick(6, 7)} nodes "
                            f"x all draws; initialisers: all outcomes for max_level <= {ctx.pick(2, 3)} up to the stated script length")
 
 
